@@ -74,6 +74,7 @@ type FuncContract struct {
 	Uses       []string
 	Terminates bool
 	Callbacks []string
+	CallbackRank map[string]int // ranks of traced callbacks (ghost event trace)
 }
 
 type ContractFile struct {
@@ -187,7 +188,21 @@ func ParseContractFile(path, pkg string) (*ContractFile, error) {
 				cur.Pure = append(cur.Pure, splitTrim(it.text, ",")...)
 			case "callback":
 				// callback <field>: calls through this function-valued field are assumed not to touch the modelled heap
-				cur.Callbacks = append(cur.Callbacks, splitTrim(it.text, ",")...)
+				for _, c := range splitTrim(it.text, ",") {
+					name, rk, has := strings.Cut(c, "=")
+					name = strings.TrimSpace(name)
+					cur.Callbacks = append(cur.Callbacks, name)
+					if has {
+						n, err := strconv.Atoi(strings.TrimSpace(rk))
+						if err != nil {
+							return nil, fail(err)
+						}
+						if cur.CallbackRank == nil {
+							cur.CallbackRank = map[string]int{}
+						}
+						cur.CallbackRank[name] = n
+					}
+				}
 			case "inline":
 				cur.Inline = true
 			case "trusted":
@@ -242,7 +257,7 @@ func ParseContractFile(path, pkg string) (*ContractFile, error) {
 						cur.NoFrame = true
 					} else if text != "nothing" {
 						for _, part := range splitTop(text, ',') {
-							e, err := ParseExpr(part)
+							e, err := ParseExpr(strings.ReplaceAll(part, "[*]", "[$all]"))
 							if err != nil {
 								return nil, fail(err)
 							}
@@ -405,6 +420,11 @@ type (
 		Body   Expr
 		Trig   []Expr
 	}
+	EStruct struct {
+		Type   string
+		Names  []string
+		Values []Expr
+	}
 	EOld    struct{ X Expr }
 	EResult struct{ Idx int } // -1 = whole result
 	ECond   struct{ C, A, B Expr }
@@ -448,6 +468,13 @@ func (e *EQuant) String() string {
 	return "(" + q + " " + strings.Join(vs, ", ") + " :: " + e.Body.String() + ")"
 }
 func (e *EOld) String() string { return "old(" + e.X.String() + ")" }
+func (e *EStruct) String() string {
+	var fs []string
+	for i, n := range e.Names {
+		fs = append(fs, n+": "+e.Values[i].String())
+	}
+	return e.Type + "{" + strings.Join(fs, ", ") + "}"
+}
 func (e *EResult) String() string {
 	if e.Idx < 0 {
 		return "result"
@@ -766,6 +793,45 @@ func (l *lexer) parsePostfix() (Expr, error) {
 		return nil, err
 	}
 	for {
+		// struct literal: Type{f: e, ...} or pkg.Type{...}
+		if l.isOp("{") {
+			tn := ""
+			switch v := x.(type) {
+			case *EIdent:
+				tn = v.Name
+			case *ESel:
+				if id, ok := v.X.(*EIdent); ok {
+					tn = id.Name + "." + v.Name
+				}
+			}
+			if tn != "" && len(tn) > 0 && (strings.Contains(tn, ".") || (tn[0] >= 'A' && tn[0] <= 'Z')) {
+				l.next()
+				st := &EStruct{Type: tn}
+				for !l.isOp("}") {
+					n := l.next()
+					if n.kind != "id" {
+						return nil, fmt.Errorf("expected field name in struct literal at %d in %q", n.pos, l.src)
+					}
+					if err := l.expect(":"); err != nil {
+						return nil, err
+					}
+					v, err := l.parseExpr()
+					if err != nil {
+						return nil, err
+					}
+					st.Names = append(st.Names, n.text)
+					st.Values = append(st.Values, v)
+					if !l.accept(",") {
+						break
+					}
+				}
+				if err := l.expect("}"); err != nil {
+					return nil, err
+				}
+				x = st
+				continue
+			}
+		}
 		switch {
 		case l.accept("."):
 			t := l.next()
